@@ -10,7 +10,9 @@ def run(prog, rep, tier):
                   "it; F5: DW_ATE_* -> signed/unsigned/bool; F4: the 13 enumerated attributes are rendered in the constant family DWARF assigns them "
                   "(joined with the writer tables' prefixes); E1: each of the 82 calls to a fallible libdw/libdwfl/libelf function has its result "
                   "compared, tested, returned or stored before use (two exemption rows with reasons); F6: the flags that summarise the enumerator scan "
-                  "(signedness from the forms of all enumerators) are monotone inside the loop.")
+                  "(signedness from the forms of all enumerators) are monotone inside the loop; G2/G3: `@AT_x` and `attribute ... value` decode an "
+                  "attribute in the DIE (hence unit: file table, ranges base, references) it was read from, on abstract DIE graphs with one- and two-hop "
+                  "specification/abstract_origin chains; X1: operand table of location operations against DWARF 5 (see C17).")
     rep.not_decided = ("the decoded values themselves (bytes of strings, target of references, boundary values, signedness taken from the type "
                        "chain at run time), and vendor attributes in DW_AT_lo_user..hi_user, which the code deliberately decodes as unsigned.")
     rep.assumptions.append("DWARF 5 tables 7.5/7.6 (form classes) and 7.11 (base type encodings) as transcribed in rules/r_dw.py")
@@ -21,5 +23,12 @@ def run(prog, rep, tier):
     q = r_pure.q1(prog)
     apply(rep, "Q1", "attribute decoding keeps no process-level cache (no static-storage variable written in the decoders)",
           ([i for i in q[0] if i[0].startswith(("Q1ii", "Q1iii"))], [f for f in q[1] if f["key"].startswith(("Q1ii", "Q1iii"))]), 2)
+    g = r_dw.g2(prog)
+    apply(rep, "G2", "`@AT_x` decodes an integrated attribute in the DIE that carries it",
+          ([i for i in g[0] if i[0].endswith(":owner")], [f for f in g[1] if f["key"].endswith(":owner")]), 1)
+    g = r_dw.g3(prog, tier)
+    apply(rep, "G3", "`attribute ... value` decodes every attribute in the DIE it was read from", g, 1)
+    import r_tables
+    apply(rep, "X1", "location operations are reported with the operands DWARF 5 gives their opcode", r_tables.x1(prog), 150)
     apply(rep, "F6", "scan-summary flags deciding signedness are only ever set inside the scan", r_dw.f6(prog), 2)
     maybe_mutants("C07", rep, tier)
